@@ -1234,3 +1234,7 @@ M('c16-import-scan-half-open-range', 'C16', "                self._get_operation
 M('c14-import-scan-half-open-range', 'C14', "                self._get_operation_session().execute(text('SELECT hashkey FROM db_object ORDER BY hashkey'))", "                self._get_operation_session().execute(text('SELECT hashkey FROM db_object WHERE hashkey < :last ORDER BY hashkey'), {'last': sorted_hashkeys[-1] if sorted_hashkeys else ''})", 'C14.R3')
 M('c11-repack-skips-locked-packs', 'C11', "        for pack_id in self._list_packs():\n            self.repack_pack(pack_id, compress_mode=compress_mode, callback=callback)", "        for pack_id in self._list_packs():\n            if (self._get_pack_folder() / f'{pack_id}.lock').exists():\n                continue\n            self.repack_pack(pack_id, compress_mode=compress_mode, callback=callback)", 'C11.R4')
 M('c12-validate-logs-and-continues', 'C12', "            pack_errors = self._validate_hashkeys_pack(pack_id=pack_id, callback=callback)", "            try:\n                pack_errors = self._validate_hashkeys_pack(pack_id=pack_id, callback=callback)\n            except (OSError, ValueError):\n                continue", 'C12.R3')
+
+# ------------------------------------------------------------------------------------------------ round 5 batch 3
+M('c18-close-noop-when-flagged-closed', 'C18', "        \"\"\"Close open files (in particular, the connection to the SQLite DB).\"\"\"\n        self._close_operation_session()", "        \"\"\"Close open files (in particular, the connection to the SQLite DB).\"\"\"\n        if getattr(self, '_closed', False):\n            return\n        self._closed = True\n        self._close_operation_session()", 'C18.R1c')
+M('c17-clean-storage-expire-instead-of-close', 'C17', "        # Force reload of the session to get the most up-to-date packed objects\n        self.close()\n\n        session = self._get_operation_session()", "        # Force reload of the session to get the most up-to-date packed objects\n        session = self._get_operation_session()\n        session.expire_all()", 'C17+C05.R3')
